@@ -259,6 +259,37 @@ def umApply (solve : Solver α) {nd ni : Nat} (hd : 0 < nd)
 
 variable [OfNat α 180] [TransOps α] [LT α] [∀ a b : α, Decidable (a < b)]
 
+/-- "Sort idof according to uset" (`idof[mat_intersect(idof, usetdof, 2)[0]]`): the entries (uset row, payload)
+in uset-row order; entries whose row is not `< nuset` drop out, of entries with the same row the first stays -/
+def sortByRow {γ : Type} (ind : List (Nat × γ)) (nuset : Nat) : List (Nat × γ) :=
+  (positions (ind.map (·.1)) (List.range nuset)).filterMap fun i => ind[i]?
+
+/-- the same for bare rows (`mdof[mat_intersect(mdof, usetdof, 2)[0]]`) -/
+def sortRows (ks : List Nat) (nuset : Nat) : List Nat :=
+  (positions ks (List.range nuset)).filterMap fun i => ks[i]?
+
+/-- `formrbe3` after the list packaging: `ni` independent DOF `indf` already in uset order with uset rows
+`ikeys`; `ddofs` = rows of `T` (0-based, `DOF_dep` digit order) with `dkeys` their uset rows;
+`um` = (number of m-set DOF named by `UM_List`, uset rows of those that are in the table, `UM_List` order).
+`none` where the real code raises. -/
+def rbe3Core (solve : Solver α)
+    (grids : List (GridR α)) (dep : GridR α) (ddofs : List Nat) (dkeys : List Nat)
+    (ni : Nat) (indf : Fin ni → IndDof α) (ikeys : List Nat) (um : Option (Nat × List Nat)) (nuset : Nat) :
+    Option (List (List α)) :=
+  let nd := ddofs.length
+  if h : 0 < ni ∧ 0 < nd ∧ ddofs.all (· < 6) then
+    let dd : Fin nd → Fin 6 := fun i => ⟨ddofs[i] % 6, Nat.mod_lt _ (by decide)⟩
+    let R := (rbe3Grid solve grids dep dd indf).mx
+    match um with
+    | none => some R.toLists
+    | some (umLen, umk) =>
+      if umLen != nd then none else
+      let mdof := sortRows umk nuset
+      match umPlan dkeys ikeys mdof nuset with
+      | none => none
+      | some p => umApply solve h.2.1 h.1 R p
+  else none
+
 /-- `formrbe3` on lists.  `grids` = dependent + independent grids (each once, for `Lc`);
 `ddofs` = dependent components (0-based, `DOF_dep` digit order) with `dkeys` their uset rows;
 `ind` = independent DOF in `Ind_List` order: (uset row, grid, component, weight);
@@ -269,23 +300,9 @@ def formRbe3 (solve : Solver α)
     (ind : List (Nat × IndDof α)) (um : Option (List Nat)) (nuset : Nat) :
     Option (List (List α)) :=
   -- "Sort idof according to uset" (weights travel with their DOF)
-  let pv := positions (ind.map (·.1)) (List.range nuset)
-  let inds := pv.filterMap fun i => ind[i]?
-  let ni := inds.length
-  let nd := ddofs.length
-  if h : 0 < ni ∧ 0 < nd ∧ ddofs.all (· < 6) then
-    let indf : Fin ni → IndDof α := fun k => (inds[k]).2
-    let dd : Fin nd → Fin 6 := fun i => ⟨ddofs[i] % 6, Nat.mod_lt _ (by decide)⟩
-    let R := (rbe3Grid solve grids dep dd indf).mx
-    match um with
-    | none => some R.toLists
-    | some umk =>
-      if umk.length != nd then none else
-      let mdof := (positions umk (List.range nuset)).filterMap fun i => umk[i]?
-      match umPlan dkeys (inds.map (·.1)) mdof nuset with
-      | none => none
-      | some p => umApply solve h.2.1 h.1 R p
-  else none
+  let inds := sortByRow ind nuset
+  rbe3Core solve grids dep ddofs dkeys inds.length (fun k => (inds[k]).2) (inds.map (·.1))
+    (um.map fun umk => (umk.length, umk)) nuset
 
 /-- Gaussian elimination with partial pivoting (the `Float` instance of `solve`) -/
 def gaussTab [Inhabited α] {n k : Nat} (A : Tab α n n) (B : Tab α n k) : Tab α n k :=
